@@ -68,8 +68,9 @@ BITS = re.compile(r"^b(\d+)$")
 
 
 class Schema:
-    def __init__(self, doc):
+    def __init__(self, doc, enum_base=None):
         self.doc = doc
+        self.enum_base = enum_base      # primitive type granted to enum fields that name only their table (second pass of C19)
         self.types = doc.get("types") or {}
         self.enums = doc.get("enums") or {}
         self.instances = doc.get("instances") or {}
@@ -260,6 +261,14 @@ class Schema:
         if t in self.types:
             sub = self.parse_seq(self.types[t].get("seq") or [], src, this)
             return Field(None, start, st.tell(), _as_value(sub), sub)
+        if t in self.enums and self.enum_base:
+            m = PRIM.match(self.enum_base)
+            kind, n, endian = m.group(1), int(m.group(2)), m.group(3)
+            raw = src.read(n)
+            v = int.from_bytes(raw, "little" if endian == "le" else "big", signed=(kind == "s"))
+            table = self.enums[t]
+            label = table.get(str(v), table.get(v, v))      # (keys are strings after the JSON round trip)
+            return Field(None, start, st.tell(), label)
         if t in self.enums:
             raise Uninterpretable("enum-without-integer-type", "field type %r names an enum table but no underlying integer type (width, byte order)" % t)
         raise Uninterpretable("unknown-type", repr(t))
